@@ -91,6 +91,24 @@ def eciBurn(state: ndarray, acc_vector: ndarray):
     return concatenate((acc_vector, zeros(3)))
 
 
+class FiniteThrustEnd:
+    """Event function with its (only) root at the end of a :class:`.ScheduledFiniteThrust`."""
+
+    terminal = True
+    direction = 0.0
+
+    def __init__(self, thrust_event: ScheduledFiniteThrust):
+        """Wrap `thrust_event` so that the integrator also stops when the thrust ends."""
+        self.thrust_event = thrust_event
+
+    def __call__(self, time: ScenarioTime, state: ndarray):
+        """Return zero when `time` reaches the end of the wrapped thrust event."""
+        _fval = self.thrust_event.end_time - time
+        if fpe_equals(_fval, 0.0):
+            return 0.0
+        return _fval
+
+
 class ScheduledFiniteThrust(ContinuousStateChangeEvent, metaclass=ABCMeta):
     """Describes a continuous maneuver that takes place over a specific period."""
 
@@ -122,9 +140,11 @@ class ScheduledFiniteThrust(ContinuousStateChangeEvent, metaclass=ABCMeta):
         See Also:
             :meth:`.ContinuousStateChangeEvent.__call__()`
         """
+        # [NOTE]: only the start is a root of this function, the end has its own event function
+        #   (:class:`.FiniteThrustEnd`); a zero at the end would hide the start root of a burn that
+        #   lies inside the last integrator step
         _ival = self.start_time - time
-        _fval = self.end_time - time
-        if fpe_equals(_ival, 0.0) or fpe_equals(_fval, 0.0):
+        if fpe_equals(_ival, 0.0):
             return 0.0
         return _ival
 
